@@ -28,6 +28,21 @@ model/RTable.vos model/RTable.vok model/RTable.required_vos: model/RTable.v gen/
 model/Check11.vo model/Check11.glob model/Check11.v.beautified model/Check11.required_vo: model/Check11.v gen/Params.vo model/Bytes.vo model/Crc32c.vo model/Id.vo model/Node.vo model/BSearch.vo model/Closest.vo model/RTable.vo
 model/Check11.vio: model/Check11.v gen/Params.vio model/Bytes.vio model/Crc32c.vio model/Id.vio model/Node.vio model/BSearch.vio model/Closest.vio model/RTable.vio
 model/Check11.vos model/Check11.vok model/Check11.required_vos: model/Check11.v gen/Params.vos model/Bytes.vos model/Crc32c.vos model/Id.vos model/Node.vos model/BSearch.vos model/Closest.vos model/RTable.vos
+model/Sha1.vo model/Sha1.glob model/Sha1.v.beautified model/Sha1.required_vo: model/Sha1.v model/Bytes.vo
+model/Sha1.vio: model/Sha1.v model/Bytes.vio
+model/Sha1.vos model/Sha1.vok model/Sha1.required_vos: model/Sha1.v model/Bytes.vos
+model/Lru.vo model/Lru.glob model/Lru.v.beautified model/Lru.required_vo: model/Lru.v model/Bytes.vo
+model/Lru.vio: model/Lru.v model/Bytes.vio
+model/Lru.vos model/Lru.vok model/Lru.required_vos: model/Lru.v model/Bytes.vos
+model/Tokens.vo model/Tokens.glob model/Tokens.v.beautified model/Tokens.required_vo: model/Tokens.v gen/Params.vo model/Bytes.vo model/Crc32c.vo model/Node.vo
+model/Tokens.vio: model/Tokens.v gen/Params.vio model/Bytes.vio model/Crc32c.vio model/Node.vio
+model/Tokens.vos model/Tokens.vok model/Tokens.required_vos: model/Tokens.v gen/Params.vos model/Bytes.vos model/Crc32c.vos model/Node.vos
+model/Server.vo model/Server.glob model/Server.v.beautified model/Server.required_vo: model/Server.v gen/Params.vo model/Bytes.vo model/Crc32c.vo model/Sha1.vo model/Id.vo model/Node.vo model/BSearch.vo model/Closest.vo model/RTable.vo model/Lru.vo model/Tokens.vo
+model/Server.vio: model/Server.v gen/Params.vio model/Bytes.vio model/Crc32c.vio model/Sha1.vio model/Id.vio model/Node.vio model/BSearch.vio model/Closest.vio model/RTable.vio model/Lru.vio model/Tokens.vio
+model/Server.vos model/Server.vok model/Server.required_vos: model/Server.v gen/Params.vos model/Bytes.vos model/Crc32c.vos model/Sha1.vos model/Id.vos model/Node.vos model/BSearch.vos model/Closest.vos model/RTable.vos model/Lru.vos model/Tokens.vos
+model/Check03.vo model/Check03.glob model/Check03.v.beautified model/Check03.required_vo: model/Check03.v gen/Params.vo model/Bytes.vo model/Crc32c.vo model/Sha1.vo model/Id.vo model/Node.vo model/BSearch.vo model/Closest.vo model/RTable.vo model/Lru.vo model/Tokens.vo model/Server.vo model/Check11.vo
+model/Check03.vio: model/Check03.v gen/Params.vio model/Bytes.vio model/Crc32c.vio model/Sha1.vio model/Id.vio model/Node.vio model/BSearch.vio model/Closest.vio model/RTable.vio model/Lru.vio model/Tokens.vio model/Server.vio model/Check11.vio
+model/Check03.vos model/Check03.vok model/Check03.required_vos: model/Check03.v gen/Params.vos model/Bytes.vos model/Crc32c.vos model/Sha1.vos model/Id.vos model/Node.vos model/BSearch.vos model/Closest.vos model/RTable.vos model/Lru.vos model/Tokens.vos model/Server.vos model/Check11.vos
 model/Check12.vo model/Check12.glob model/Check12.v.beautified model/Check12.required_vo: model/Check12.v gen/Params.vo model/Bytes.vo model/Crc32c.vo model/Id.vo model/Node.vo model/BSearch.vo model/Closest.vo model/RTable.vo model/Check11.vo
 model/Check12.vio: model/Check12.v gen/Params.vio model/Bytes.vio model/Crc32c.vio model/Id.vio model/Node.vio model/BSearch.vio model/Closest.vio model/RTable.vio model/Check11.vio
 model/Check12.vos model/Check12.vok model/Check12.required_vos: model/Check12.v gen/Params.vos model/Bytes.vos model/Crc32c.vos model/Id.vos model/Node.vos model/BSearch.vos model/Closest.vos model/RTable.vos model/Check11.vos
@@ -55,3 +70,21 @@ properties/C11.vos properties/C11.vok properties/C11.required_vos: properties/C1
 properties/C12.vo properties/C12.glob properties/C12.v.beautified properties/C12.required_vo: properties/C12.v gen/Params.vo model/Bytes.vo model/Crc32c.vo model/Id.vo model/Node.vo model/BSearch.vo model/Closest.vo model/RTable.vo proofs/RTableProofs.vo
 properties/C12.vio: properties/C12.v gen/Params.vio model/Bytes.vio model/Crc32c.vio model/Id.vio model/Node.vio model/BSearch.vio model/Closest.vio model/RTable.vio proofs/RTableProofs.vio
 properties/C12.vos properties/C12.vok properties/C12.required_vos: properties/C12.v gen/Params.vos model/Bytes.vos model/Crc32c.vos model/Id.vos model/Node.vos model/BSearch.vos model/Closest.vos model/RTable.vos proofs/RTableProofs.vos
+proofs/LruProofs.vo proofs/LruProofs.glob proofs/LruProofs.v.beautified proofs/LruProofs.required_vo: proofs/LruProofs.v model/Bytes.vo model/Lru.vo proofs/ClosestProofs.vo proofs/RTableProofs.vo
+proofs/LruProofs.vio: proofs/LruProofs.v model/Bytes.vio model/Lru.vio proofs/ClosestProofs.vio proofs/RTableProofs.vio
+proofs/LruProofs.vos proofs/LruProofs.vok proofs/LruProofs.required_vos: proofs/LruProofs.v model/Bytes.vos model/Lru.vos proofs/ClosestProofs.vos proofs/RTableProofs.vos
+proofs/ServerProofs.vo proofs/ServerProofs.glob proofs/ServerProofs.v.beautified proofs/ServerProofs.required_vo: proofs/ServerProofs.v gen/Params.vo model/Bytes.vo model/Crc32c.vo model/Sha1.vo model/Id.vo model/Node.vo model/BSearch.vo model/Closest.vo model/RTable.vo model/Lru.vo model/Tokens.vo model/Server.vo proofs/ClosestProofs.vo proofs/RTableProofs.vo proofs/LruProofs.vo
+proofs/ServerProofs.vio: proofs/ServerProofs.v gen/Params.vio model/Bytes.vio model/Crc32c.vio model/Sha1.vio model/Id.vio model/Node.vio model/BSearch.vio model/Closest.vio model/RTable.vio model/Lru.vio model/Tokens.vio model/Server.vio proofs/ClosestProofs.vio proofs/RTableProofs.vio proofs/LruProofs.vio
+proofs/ServerProofs.vos proofs/ServerProofs.vok proofs/ServerProofs.required_vos: proofs/ServerProofs.v gen/Params.vos model/Bytes.vos model/Crc32c.vos model/Sha1.vos model/Id.vos model/Node.vos model/BSearch.vos model/Closest.vos model/RTable.vos model/Lru.vos model/Tokens.vos model/Server.vos proofs/ClosestProofs.vos proofs/RTableProofs.vos proofs/LruProofs.vos
+proofs/TokenProofs.vo proofs/TokenProofs.glob proofs/TokenProofs.v.beautified proofs/TokenProofs.required_vo: proofs/TokenProofs.v gen/Params.vo model/Bytes.vo model/Crc32c.vo model/Id.vo model/Node.vo model/Tokens.vo proofs/Sweep.vo proofs/IdProofs.vo proofs/ClosestProofs.vo proofs/RTableProofs.vo
+proofs/TokenProofs.vio: proofs/TokenProofs.v gen/Params.vio model/Bytes.vio model/Crc32c.vio model/Id.vio model/Node.vio model/Tokens.vio proofs/Sweep.vio proofs/IdProofs.vio proofs/ClosestProofs.vio proofs/RTableProofs.vio
+proofs/TokenProofs.vos proofs/TokenProofs.vok proofs/TokenProofs.required_vos: proofs/TokenProofs.v gen/Params.vos model/Bytes.vos model/Crc32c.vos model/Id.vos model/Node.vos model/Tokens.vos proofs/Sweep.vos proofs/IdProofs.vos proofs/ClosestProofs.vos proofs/RTableProofs.vos
+properties/C03.vo properties/C03.glob properties/C03.v.beautified properties/C03.required_vo: properties/C03.v gen/Params.vo model/Bytes.vo model/Crc32c.vo model/Sha1.vo model/Id.vo model/Node.vo model/BSearch.vo model/Closest.vo model/RTable.vo model/Lru.vo model/Tokens.vo model/Server.vo proofs/ServerProofs.vo
+properties/C03.vio: properties/C03.v gen/Params.vio model/Bytes.vio model/Crc32c.vio model/Sha1.vio model/Id.vio model/Node.vio model/BSearch.vio model/Closest.vio model/RTable.vio model/Lru.vio model/Tokens.vio model/Server.vio proofs/ServerProofs.vio
+properties/C03.vos properties/C03.vok properties/C03.required_vos: properties/C03.v gen/Params.vos model/Bytes.vos model/Crc32c.vos model/Sha1.vos model/Id.vos model/Node.vos model/BSearch.vos model/Closest.vos model/RTable.vos model/Lru.vos model/Tokens.vos model/Server.vos proofs/ServerProofs.vos
+properties/C04.vo properties/C04.glob properties/C04.v.beautified properties/C04.required_vo: properties/C04.v gen/Params.vo model/Bytes.vo model/Crc32c.vo model/Sha1.vo model/Id.vo model/Node.vo model/BSearch.vo model/Closest.vo model/RTable.vo model/Lru.vo model/Tokens.vo model/Server.vo proofs/ServerProofs.vo
+properties/C04.vio: properties/C04.v gen/Params.vio model/Bytes.vio model/Crc32c.vio model/Sha1.vio model/Id.vio model/Node.vio model/BSearch.vio model/Closest.vio model/RTable.vio model/Lru.vio model/Tokens.vio model/Server.vio proofs/ServerProofs.vio
+properties/C04.vos properties/C04.vok properties/C04.required_vos: properties/C04.v gen/Params.vos model/Bytes.vos model/Crc32c.vos model/Sha1.vos model/Id.vos model/Node.vos model/BSearch.vos model/Closest.vos model/RTable.vos model/Lru.vos model/Tokens.vos model/Server.vos proofs/ServerProofs.vos
+properties/C15.vo properties/C15.glob properties/C15.v.beautified properties/C15.required_vo: properties/C15.v gen/Params.vo model/Bytes.vo model/Crc32c.vo model/Sha1.vo model/Id.vo model/Node.vo model/BSearch.vo model/Closest.vo model/RTable.vo model/Lru.vo model/Tokens.vo model/Server.vo proofs/ServerProofs.vo proofs/TokenProofs.vo
+properties/C15.vio: properties/C15.v gen/Params.vio model/Bytes.vio model/Crc32c.vio model/Sha1.vio model/Id.vio model/Node.vio model/BSearch.vio model/Closest.vio model/RTable.vio model/Lru.vio model/Tokens.vio model/Server.vio proofs/ServerProofs.vio proofs/TokenProofs.vio
+properties/C15.vos properties/C15.vok properties/C15.required_vos: properties/C15.v gen/Params.vos model/Bytes.vos model/Crc32c.vos model/Sha1.vos model/Id.vos model/Node.vos model/BSearch.vos model/Closest.vos model/RTable.vos model/Lru.vos model/Tokens.vos model/Server.vos proofs/ServerProofs.vos proofs/TokenProofs.vos
